@@ -1,6 +1,6 @@
 """C06 — a failed exchange yields exactly one error, then silence."""
 import itertools
-from .. import common as C, structs as S, valgen as V, seqgen as G
+from .. import common as C, structs as S, valgen as V, seqgen as G, refcodec as R
 
 LEAN_MODULES = ["ZvtVerif.Properties.C06"]
 ASSUMPTIONS = ["scripted terminal as in C05; a truncated packet is always followed by the end of the connection"]
@@ -20,7 +20,41 @@ def undecodable(spec, s):
     return None
 
 
-def faults(rng, enum_ctrls, letters, spec=None, enum=None):
+_DUP = {}
+
+
+def duplicate_last(spec, s, g):
+    if s["name"] not in _DUP:
+        _DUP[s["name"]] = _duplicate_last(spec, s, g)
+    return _DUP[s["name"]]
+
+
+def _duplicate_last(spec, s, g):
+    """a body with EVERY tagged field of s present and one of them repeated at the very end: the type's own decoder
+    rejects it (DuplicateTag) — also when the repetition comes after all fields have been seen"""
+    fields = s["fields"]
+    tagged = [f for f in fields if f["tag"] is not None]
+    if not tagged or any(f["tag"] is None and f["length"] == "empty" and f["ty"]["k"] in ("str", "struct") for f in fields):
+        return None
+    for _ in range(20):
+        v = g.struct(s, 0.0)
+        try:
+            parts = [R.field_bytes(spec, f, f["ty"], v[f["name"]]) for f in fields]
+        except R.NotRepresentable:
+            continue
+        groups = [(f, b) for f, b in zip(fields, parts) if f["tag"] is not None]
+        if any(not b for _, b in groups):
+            continue           # an empty Vec: not every tagged field is present
+        rep = [b for f, b in groups if f["ty"]["k"] != "vec"]
+        if not rep:
+            return None
+        body = b"".join(parts) + rep[-1]
+        if len(body) < 255:
+            return body
+    return None
+
+
+def faults(rng, enum_ctrls, letters, spec=None, enum=None, g=None):
     """fault items: (kind, bytes)"""
     fs = []
     fs.append(("nack", bytes([0x84, rng.choice([0x00, 0x9c, 0xff, 0x6c]), 0x00])))
@@ -37,6 +71,10 @@ def faults(rng, enum_ctrls, letters, spec=None, enum=None):
         u = undecodable(spec, sv)
         if u is not None:
             cands.append(bytes(sv["ctrl"]) + bytes([len(u)]) + u)
+        if g is not None:
+            u2 = duplicate_last(spec, sv, g)
+            if u2 is not None:
+                fs.append(("malformed-duplicate", bytes(sv["ctrl"]) + bytes([len(u2)]) + u2))
     if cands:
         fs.append(("malformed", rng.choice(cands)))
     # truncated packet: a valid one cut short (connection ends inside it)
@@ -96,7 +134,7 @@ def run(ctx, out):
             # fault instead of the acknowledgement (only once per sequence and fault kind), and at every later position
             positions = (["ack"] if not pre else []) + ["after"]
             for pos in positions:
-                for kind, fb in faults(rng, ctrls, letters, spec, enum):
+                for kind, fb in faults(rng, ctrls, letters, spec, enum, g):
                     if pos == "ack":
                         items = [] if fb is None else [fb]
                         good = []
@@ -133,7 +171,7 @@ def run(ctx, out):
         if why:
             out.oracle_failures.append({"op": o[:400], "observed": r[:500], "expected": " / ".join(pre) + " / [r:n] / e:<kind> / end", "key": o[:200],
                                         "what": f"{o.split()[1]} with fault {kd}: {why}"})
-    out.rule = (f"all {len(spec['sequences'])} exchanges x valid reply prefixes up to depth {depth - 1} x fault kinds (NACK 84xx, foreign control field, undecodable body, truncated packet + close, EOF) "
+    out.rule = (f"all {len(spec['sequences'])} exchanges x valid reply prefixes up to depth {depth - 1} x fault kinds (NACK 84xx, foreign control field, undecodable body — a tag without value, or all tagged fields present and one repeated at the end —, truncated packet + close, EOF) "
                 "instead of the acknowledgement and at every later position, optionally with more data queued behind the fault; oracle on the implementation's event log: exactly one error, nothing but `end` after it, "
                 "no write after the failure, every 80 00 00 pairs with a yielded packet (the faulty packet is not acknowledged), valid prefix processed normally; implementation = model. non-trivial = distinct (sequence, prefix, fault)")
     out.samples = [ops[0][:300], {"op": ops[len(ops)//2][:200], "impl": impl[len(ops)//2][:300]}]
